@@ -131,14 +131,17 @@ func checkPots(o *Out, es []entry, pots []*pot.Pot) {
 
 // ---- C02 monitor: net changes against the rules of the showdown ----
 
-func checkSettlement(o *Out, es []entry, changed map[int]int64) {
+func checkSettlement(o *Out, es []entry, changed map[int]int64) { checkSettlementAs(o, "", es, changed) }
+
+// checkSettlementAs: pfx is put in front of the monitor names (which ranking the entries carry)
+func checkSettlementAs(o *Out, pfx string, es []entry, changed map[int]int64) {
 	desc := func() string { return fmt.Sprintf("entries(idx contrib fold score)=%v changed=%v", es, changed) }
 	var zs int64
 	for _, e := range es {
 		zs += changed[e.idx]
 	}
 	if zs != 0 {
-		o.Violate("C02", "zero_sum", desc())
+		o.Violate("C02", pfx+"zero_sum", desc())
 	}
 	// layers
 	lv := map[int64]bool{}
@@ -228,13 +231,13 @@ func checkSettlement(o *Out, es []entry, changed map[int]int64) {
 			if lo[e.idx] > 0 && len(es) > 0 {
 				mon = "tie_fair_or_amount"
 			}
-			o.Violate("C02", mon, fmt.Sprintf("player %d collects %d, the rules give between %d and %d: %s", e.idx, pay, lo[e.idx], hi[e.idx], desc()))
+			o.Violate("C02", pfx+mon, fmt.Sprintf("player %d collects %d, the rules give between %d and %d: %s", e.idx, pay, lo[e.idx], hi[e.idx], desc()))
 		}
 		if e.fold && changed[e.idx] > 0 {
-			o.Violate("C02", "folded_wins_nothing", desc())
+			o.Violate("C02", pfx+"folded_wins_nothing", desc())
 		}
 		if changed[e.idx] < -e.contrib {
-			o.Violate("C02", "loses_more_than_put_in", desc())
+			o.Violate("C02", pfx+"loses_more_than_put_in", desc())
 		}
 		var cap, maxOther int64
 		for _, f := range es {
@@ -246,10 +249,10 @@ func checkSettlement(o *Out, es []entry, changed map[int]int64) {
 			}
 		}
 		if changed[e.idx] > cap {
-			o.Violate("C02", "no_gain_from_unpaid_layer", fmt.Sprintf("player %d wins %d, can win at most %d: %s", e.idx, changed[e.idx], cap, desc()))
+			o.Violate("C02", pfx+"no_gain_from_unpaid_layer", fmt.Sprintf("player %d wins %d, can win at most %d: %s", e.idx, changed[e.idx], cap, desc()))
 		}
 		if e.contrib > maxOther && changed[e.idx] < -maxOther {
-			o.Violate("C02", "excess_returned", desc())
+			o.Violate("C02", pfx+"excess_returned", desc())
 		}
 	}
 	o.Count("settle.checked")
